@@ -156,6 +156,70 @@ def _gather_clauses():
     ]
 
 
+def _implementation_clauses():
+    def subtype_events(p):
+        return [e for e in p.events if e.startswith("is_subtype(")]
+
+    def field_types_covariant(p):
+        sub = subtype_events(p)
+        if not sub:
+            return None
+        return sub[0] == "is_subtype(object_field.type,field.type)"
+
+    def missing_field_reported(p):
+        if p.assumed("object_field is None") is True:
+            return "error" in p.events and not subtype_events(p)
+        return None
+
+    def wrong_field_type_reported(p):
+        a = p.assumed("not self.schema.is_subtype(object_field.type, field.type)")
+        if a is True:
+            return count(p.events, "error") >= 1 and "for[field.arguments]{" not in p.events
+        return None
+
+    def arguments_invariant(p):
+        # inside the loop over the interface field's arguments no covariance test is used: the types must be equal
+        if "for[field.arguments]{" not in p.events:
+            return None
+        i = p.events.index("for[field.arguments]{")
+        j = p.events.index("}", i) if "}" in p.events[i:] else len(p.events)
+        if any(e.startswith("is_subtype(") for e in p.events[i:j]):
+            return False
+        tests = [(t.replace(" ", ""), o) for t, o in p.facts if "object_arg.type" in t and "arg.type" in t]
+        if not tests:
+            return None
+        t, o = tests[-1]
+        if t in ("arg.type!=object_arg.type", "object_arg.type!=arg.type"):
+            return ("error" in p.events[i:j]) == o
+        if t in ("arg.type==object_arg.type", "object_arg.type==arg.type"):
+            return ("error" in p.events[i:j]) == (not o)
+        raise T.Unsupported("argument type comparison %r not recognised" % t)
+
+    def missing_argument_reported(p):
+        if p.assumed("object_arg is None") is True and "for[field.arguments]{" in p.events:
+            i = p.events.index("for[field.arguments]{")
+            return "error" in p.events[i:]
+        return None
+
+    def extra_required_argument_reported(p):
+        if p.assumed("interface_arg is None") is True:
+            req = p.assumed("isinstance(arg.type, NonNullType)")
+            if req is None or "for[object_field.arguments]{" not in p.events:
+                return None
+            i = p.events.index("for[object_field.arguments]{")
+            return ("error" in p.events[i:]) == req
+        return None
+
+    return [
+        ("field-types-covariant", "the implementing field's type is tested with is_subtype(object field type, interface field type) - the relation Engine A proves equal to the specification's", field_types_covariant),
+        ("missing-field-reported", "an interface field the object does not define is reported", missing_field_reported),
+        ("wrong-field-type-reported", "a field type that is not a valid implementation type is reported", wrong_field_type_reported),
+        ("argument-types-invariant", "interface field arguments must have exactly the same type in the object (equality, not covariance); a difference is reported", arguments_invariant),
+        ("missing-argument-reported", "an interface field argument the object field lacks is reported", missing_argument_reported),
+        ("extra-required-argument-reported", "an additional object field argument is reported exactly when it is of a non-null type", extra_required_argument_reported),
+    ]
+
+
 FIELD_EVENTS = [(r"on_field_start$", "field+"), (r"on_field_end$", "field-"), (r"^resolver$", "resolver"),
                 (r"self\.complete_value$", "complete"), (r"self\.add_error$", "add_error")]
 FIELD_NOTHROW = [r"on_field_(start|end)$", r"self\.add_error$", r"^ResolveInfo$"]
@@ -1045,6 +1109,11 @@ TRACE_CONTRACTS = [
                        nothrow=[r"\.append$", r"^MultiCoercionError$", r"^CoercionError$", r"^_path$", r"\.keys$"],
                        raises=[(r"^coerce_value$", [__import__("py_gql.exc", fromlist=["CoercionError"]).CoercionError, __import__("py_gql.exc", fromlist=["MultiCoercionError"]).MultiCoercionError])]),
          clauses=_coerce_object_clauses(), assumes=["coerce_value raises only coercion errors (its own contract)"]),
+    dict(id="SchemaValidator.validate_implementation", target="py_gql.schema.validation:SchemaValidator.validate_implementation", props=["C13"],
+         config=Config(events=[(r"self\.add_error$", "error"),
+                               (r"is_subtype$", lambda call, args, kwargs: "is_subtype(%s)" % ",".join(__import__("ast").unparse(a) for a in call.args))],
+                       nothrow=[r"self\.add_error$", r"is_subtype$", r"\.get$"]),
+         clauses=_implementation_clauses(), assumes=["Schema.is_subtype is the specification's covariance relation (proved by Engine A in this check)"]),
     dict(id="BlockingRuntime.map_value", target="py_gql.execution.runtime.blocking:BlockingRuntime.map_value", props=["C16", "C08"],
          config=Config(events=[(r"^then$", "then"), (r"^else_\[1\]$", "else")]),
          clauses=[("then-exactly-once-first", "`then` is invoked exactly once, first", lambda p: count(p.events, "then") == 1 and p.events[0] == "then"),
